@@ -166,6 +166,7 @@ def gen_case(rng, cls, ep, mal, var):
             "max_n_mod": rng.choice([3, 4, 5]),
             "sort_by": rng.choice(["tschuprowt", "cramerv"]),
             "pos": rng.random(), "pos2": rng.random(), "classes": None if classes is None else encs(classes)}
+    case["perturb"] = rng.choice(PERTURBS) if ep == "refit" else "plain"
     dev_side = var.endswith("@dev")
     if cls in CARVERS and (dev_side or rng.random() < 0.4):
         case["dev"] = gen_sample(rng, rng.choice([40, 60]), target, classes)
@@ -338,9 +339,75 @@ def inject(case, obj, X, y, fitted):
     raise ValueError(mal)
 
 
+PERTURBS = ["plain", "nan_new", "id_like", "new_category", "dropped_category", "numeric_categories", "shifted"]
+
+
+def perturb_second_sample(X, case):
+    """the sample of a SECOND fit differs from the first one in a way the data preparation of the
+    classes reacts to (still a frame with every column): NaN where the first sample had none, id-like
+    features, new / vanished / numeric-looking categories, another numeric range"""
+    import random
+    kind = case.get("perturb", "plain")
+    if kind == "plain" or not hasattr(X, "columns"):
+        return X
+    qf, cf, of = feats_of(case)
+    r = random.Random(int(case["pos"] * 1e9))
+    n = len(X)
+    cols = list(X.columns)
+    if kind == "nan_new":
+        for c in qf + cf + of:
+            if c in cols:
+                if c in cf + of:
+                    X[c] = X[c].astype(object)
+                for j in r.sample(range(n), max(2, n // 8)):
+                    X.iloc[j, cols.index(c)] = NAN
+    elif kind == "id_like":
+        for c in cf + of:
+            if c in cols:
+                X[c] = [f"id_{j}" for j in range(n)]
+        for c in qf:
+            if c in cols:
+                X[c] = [j * 1.37 for j in range(n)]
+    elif kind == "new_category":
+        for c, v in [(c, "zz") for c in cf] + [(c, "L9") for c in of]:
+            if c in cols:
+                for j in r.sample(range(n), max(2, n // 6)):
+                    X.iloc[j, cols.index(c)] = v
+    elif kind == "dropped_category":
+        for c in cf:
+            if c in cols:
+                X[c] = X[c].replace({"a": "b", "d": "c"})
+        for c in of:
+            if c in cols:
+                X[c] = X[c].replace({"L0": "L1", "L4": "L3"})
+    elif kind == "numeric_categories":
+        for c in cf:
+            if c in cols:
+                X[c] = X[c].map({"a": 1, "b": 2, "c": 3.5, "d": "d"}).astype(object)
+        for c in of:
+            if c in cols:
+                X[c] = X[c].map({"L0": 0, "L1": 1, "L2": "L2", "L3": 3, "L4": 4}).astype(object)
+    elif kind == "shifted":
+        for c in qf:
+            if c in cols:
+                X[c] = X[c] * -3 + 1000
+    return X
+
+
 def snapshot(obj, case):
     """values_orders, JSON export and transform(X_valid) of a fitted object"""
     snap = {}
+    try:
+        snap["features"] = json.dumps({k: sorted(map(str, getattr(obj, k, None) or []))
+                                       for k in ("features", "quantitative_features", "qualitative_features",
+                                                 "ordinal_features")}, sort_keys=True)
+    except Exception as e:  # noqa: BLE001
+        snap["features"] = f"raised {type(e).__name__}: {e}"[:200]
+    try:
+        snap["labels"] = json.dumps({str(f): [[enc(k), enc(v)] for k, v in d.items()]
+                                     for f, d in sorted(obj.labels_per_values.items())}, sort_keys=True)
+    except Exception as e:  # noqa: BLE001
+        snap["labels"] = f"raised {type(e).__name__}: {e}"[:200]
     try:
         snap["vo"] = json.dumps({str(f): [[enc(l), encs(list(vo.content[l]))] for l in list(vo)]
                                  for f, vo in sorted(obj.values_orders.items())}, sort_keys=True)
@@ -427,6 +494,7 @@ def run_case(case):
     out["n_features_fitted"] = len(obj.features)
     if ep == "refit":
         X2, y2 = frame(case["new"], case, st), target(case["new"], st)
+        X2 = perturb_second_sample(X2, case)
         Xd2 = yd2 = None
         if has_dev:
             Xd2, yd2 = frame(case["new_dev"], case, 1000), target(case["new_dev"], 1000)
@@ -470,8 +538,10 @@ class C19(Prop):
             "ONE malformed class injected at a random position (row / column / permutation drawn from the "
             "case's PRNG) into an otherwise valid 40-80 row sample, train or dev side); every expressible "
             "(class, entry point, malformed class, variant) triple is generated at least once per run "
-            "(quick: once + random extra, thorough: 6x); observable: exception class, and for objects "
-            "fitted before the call values_orders / json.dumps(to_json()) / transform(X_valid) against the "
+            "(quick: once + the second fit of every class with each of 7 second samples — like the first, NaN "
+            "where the first had none, id-like features, new / vanished / numeric-looking categories, other "
+            "numeric range —, thorough: 12x); observable: exception class, and for objects "
+            "fitted before the call features / values_orders / labels_per_values / json.dumps(to_json()) / transform(X_valid) against the "
             "snapshot taken before the call; compared in Coq with run_call of the CURRENT step list of the class; "
             "non-trivial = malformed case whose call was reached (first fit succeeded); distinct = "
             "(class, entry, malformed class, variant, outcome, unchanged) signature")
@@ -496,9 +566,12 @@ class C19(Prop):
         cases = []
         reps = 1 if tier == "quick" else 12
         # the second fit of a fitted object first (several samples and feature sets per class)
-        for _ in range(4 * reps):
+        for _ in range(reps):
             for cls in CLASSES:
-                cases.append(gen_case(rng, cls, "refit", "second_fit", "-"))
+                for kind in PERTURBS:
+                    c = gen_case(rng, cls, "refit", "second_fit", "-")
+                    c["perturb"] = kind
+                    cases.append(c)
         for cls in CARVERS + ["Discretizer"]:
             for kinds in ("q", "c", "qc"):
                 c = gen_case(rng, cls, "refit", "second_fit", "-")
@@ -632,8 +705,8 @@ class C19(Prop):
     def signature(self, case, out):
         if case["mal"] == "none":
             return None
-        return (f"{case['cls']}|{case['ep']}|{case['mal']}|{case['var']}|{out.get('outcome')}|"
-                f"{unchanged_all(out)}")
+        return (f"{case['cls']}|{case['ep']}|{case['mal']}|{case['var']}|{case.get('perturb', 'plain')}|"
+                f"{out.get('outcome')}|{unchanged_all(out)}")
 
     def finding_signatures(self, case, out, msg):
         """coarse signature of the mechanism first, then the fine (class, entry, malformed class) one"""
@@ -698,12 +771,16 @@ class C19(Prop):
         return best
 
     def distribution(self, cases, outs):
-        d = {"class": {}, "entry": {}, "malformed": {}, "outcome": {}, "with_dev": 0, "rows": {}}
+        d = {"class": {}, "entry": {}, "malformed": {}, "outcome": {}, "with_dev": 0, "rows": {},
+             "second_sample": {}}
         for c, o in zip(cases, outs):
             d["class"][c["cls"]] = d["class"].get(c["cls"], 0) + 1
             d["entry"][c["ep"]] = d["entry"].get(c["ep"], 0) + 1
             d["malformed"][c["mal"]] = d["malformed"].get(c["mal"], 0) + 1
             d["with_dev"] += c["dev"] is not None
+            if c["ep"] == "refit":
+                k = c.get("perturb", "plain")
+                d["second_sample"][k] = d["second_sample"].get(k, 0) + 1
             d["rows"][str(c["n"])] = d["rows"].get(str(c["n"]), 0) + 1
             if isinstance(o, dict):
                 k = o.get("outcome", "skip" if "skip" in o else "harness_error")
